@@ -87,6 +87,15 @@ def _build(case, order="low", rot_first=True, inverse="quick"):
             se.setRotationPrecipitate(_rot(case["rotP"]))
     if rot is not None and not rot_first:
         se.setRotationMatrix(rot)
+    # rotations set earlier on the same object and then replaced (the last one set counts; it may be exactly the identity)
+    for q in case.get("rot_hist") or []:
+        se.setRotationMatrix(_rot(q))
+    if case.get("rot_hist"):
+        se.setRotationMatrix(rot if rot is not None else np.eye(3))
+    for q in case.get("rotP_hist") or []:
+        se.setRotationPrecipitate(_rot(q))
+    if case.get("rotP_hist"):
+        se.setRotationPrecipitate(_rot(case["rotP"]) if case.get("rotP") else np.eye(3))
     se.setEigenstrain(_eig(case["eig"]))
     if sapi[0] != "ctor" and sapi[1] != "early":
         select(se)
@@ -159,6 +168,11 @@ def check_quadratic(case):
         out.label("shape_via_" + case["shape_api"][0] + "_" + case["shape_api"][1])
         if not math.isclose(Eb, E, rel_tol=1e-9, abs_tol=1e-12 * scale):
             out.fail("entry_point_matters", "Eshelby description selected by %r: energy %r, through the constructor argument: %r" % (case["shape_api"], E, Eb), what="shape")
+    if case.get("rot_hist") or case.get("rotP_hist"):
+        Eh = float(_build(dict(case, rot_hist=None, rotP_hist=None)).compute(r))
+        out.label("rotation_replaced" + ("_by_identity" if (case.get("rot_hist") and not case.get("rot")) or (case.get("rotP_hist") and not case.get("rotP")) else ""))
+        if not math.isclose(Eh, E, rel_tol=1e-9, abs_tol=1e-12 * scale):
+            out.fail("setter_order_matters", "rotation(s) %r / %r had been set before the final ones: energy %r; same final configuration without that history: %r" % (case.get("rot_hist"), case.get("rotP_hist"), E, Eh), what="rotation_history")
     if case.get("rotP") and case.get("cP"):
         out.label("precipitate_rotated")
     if case.get("rot"):
@@ -431,6 +445,10 @@ def _quad_case(draw):
         case["rotP"] = [draw(st.floats(-1, 1)) for _ in range(3)] + [draw(st.floats(0.1, 1))]      # the precipitate's own rotation
     if draw(st.booleans()):
         case["api"] = "named"
+    if draw(st.integers(0, 3)) == 3:
+        case["rot_hist"] = [[draw(st.floats(-1, 1)) for _ in range(3)] + [draw(st.floats(0.1, 1))] for _ in range(draw(st.integers(1, 2)))]
+    if case["cP"] is not None and draw(st.integers(0, 5)) == 5:
+        case["rotP_hist"] = [[draw(st.floats(-1, 1)) for _ in range(3)] + [draw(st.floats(0.1, 1))]]
     if draw(st.integers(0, 2)) == 2:
         case["shape_api"] = [draw(st.sampled_from(["name", "alias_plate", "alias_needle", "typed", "object"])), draw(st.sampled_from(["early", "late"])),
                              draw(st.sampled_from([None, None, "sphere", "cube", "constant"]))]
@@ -516,7 +534,7 @@ PREDICATES = {"lebedev_nodes_inexact": pred_lebedev, "negative_with_lebedev_node
 def clauses():
     return [
         Clause("quadratic", _quad_case, check_quadratic, quick=1200, thorough=60000,
-               rule="generator: matrix stiffness (isotropic/cubic, Zener ratio 0.3-4) x precipitate stiffness (same/isotropic/cubic) x eigenstrain (scalar/vector/symmetric tensor, |eps| <= 0.05) x semi-axes (sphere/needle/plate/general, aspect <= 20) x optional rotation of the matrix and of the precipitate x stiffness entered as tensor or through the named constants/moduli x Eshelby description selected by the constructor argument, by name/alias, typed setter or description object, before or after the material data, optionally after another shape; "
+               rule="generator: matrix stiffness (isotropic/cubic, Zener ratio 0.3-4) x precipitate stiffness (same/isotropic/cubic) x eigenstrain (scalar/vector/symmetric tensor, |eps| <= 0.05) x semi-axes (sphere/needle/plate/general, aspect <= 20) x optional rotation of the matrix and of the precipitate (possibly set after other rotations on the same object, the final one possibly the identity) x stiffness entered as tensor or through the named constants/moduli x Eshelby description selected by the constructor argument, by name/alias, typed setter or description object, before or after the material data, optionally after another shape; "
                     "oracle: E >= 0, E(s r) = s^3 E(r), E(c eps) = c^2 E(eps), quick vs numpy 3x3 inverse, 4th-rank vs 6x6 variants, inhomogeneous = homogeneous result for equal stiffness, rotation/stiffness setter order, entry point of the stiffness; non-trivial: non-spherical, cubic or rotated"),
         Clause("sphere", _sphere_case, check_sphere, quick=300, thorough=15000,
                rule="generator: isotropic (E, nu), dilatational eigenstrain, radius, 1-3 quadrature orders; closed form 2G(1+nu)/(1-nu) eps^2 V through the Eshelby path and the spherical approximation (1e-9), textbook Eshelby tensor components and trace"),
